@@ -107,7 +107,7 @@ def run(ctx):
                 r.inst({"unknown_encoding_edge": "returns Err, builds no decoder" if ok else f"builds {builds}"}, ok)
                 if not ok:
                     r.violate(fn.id, "unknown-encoding", f"an encoding not handled explicitly still constructs {builds}", rec["file"], t[5])
-    return [r, rule_carry(facts), rule_cursor(facts, "C10-CURSOR", ["glaredb_ext_parquet"], 8)]
+    return [r, rule_carry(facts), rule_cursor(facts, "C10-CURSOR", ["glaredb_ext_parquet"], 8), rule_dictfresh(facts)]
 
 
 def rule_carry(facts):
@@ -147,6 +147,34 @@ def rule_cursor(facts, rule, crates, floor):
                       f"the loop subtracts `{s_['amount']}` from `{s_['remaining']}` and passes it to `{s_['callee']}` (line {s_['line']}), but the `{s_['offset_param']}` "
                       f"argument of that call is never advanced by `{s_['amount']}` inside the loop: every further iteration handles the same slice again "
                       "(rows duplicated, the tail lost, counts unchanged)", s_["file"], s_["line"])
+    return r
+
+
+def rule_dictfresh(facts):
+    """The dictionary array keeps one extra slot that is marked invalid and stands for NULL. Marking is cumulative: a slot marked for an
+    earlier, smaller dictionary stays invalid unless the validity mask is rebuilt. Every path that loads a new dictionary and marks its
+    NULL slot therefore first replaces the array (or its validity); otherwise a real entry of a later, larger dictionary sits on a stale
+    invalid bit and every row that references it reads as NULL."""
+    r = RuleResult("C10-DICTFRESH", "every path that loads a dictionary page and marks the NULL slot first replaces the dictionary array or rebuilds its validity", floor=1)
+    recs = facts.fns_matching(lambda i: "column::encoding::dictionary::Dictionary" in i and i.endswith("::prepare_with_values"))
+    if not recs:
+        r.missing_anchor("Dictionary::prepare_with_values")
+        return r
+    for rec in recs:
+        fn = Fn(rec)
+        r.functions.add(fn.id)
+        marks = [c for c in fn.calls() if c.name.endswith("Validity::set_invalid")]
+        fresh = [c.bb for c in fn.calls() if c.name.endswith(("Array::new", "Array::put_validity", "Validity::new_all_valid", "Array::new_null", "Array::reset_for_write"))]
+        if not marks:
+            r.missing_anchor("the set_invalid call that marks the NULL slot in Dictionary::prepare_with_values")
+            continue
+        for m in marks:
+            r.call_sites += 1
+            ok = m.bb not in fn.reachable_from(0, avoid=fresh)
+            r.inst({"fn": fn.id, "mark_line": m.line, "array_or_validity_replaced_on_every_path": ok}, ok)
+            if not ok:
+                r.violate(fn.id, "stale-dictionary-validity", f"a path reaches the NULL-slot marking at line {m.line} without replacing the dictionary array or its validity: slots "
+                          "invalidated for an earlier dictionary stay invalid and valid entries of the new dictionary decode as NULL", rec["file"], m.line)
     return r
 
 CLAIM = {
